@@ -28,7 +28,8 @@ thread ids (`run`), of any length, over any number of threads.
 Granularity notes (what one transition is)
   * the CAS retry loops are real loops in the model: a failed CAS leaves the program counter
     where the code would retry;
-  * `AtomicValue::max` (statistics only) is one transition: it is a linearisable CAS loop;
+  * `AtomicValue::max` is modelled as its individual atomic operations: load; then the loop
+    `compare_exchange(old, max(v, old))` — success: done / failure: reload `old`, recompute;
   * the plain code between two atomic operations is a separate *silent* transition
     (`PC.silent`), so the theorems also cover schedules in which another thread moves between
     the atomic operation and the plain code that follows it;
@@ -98,6 +99,8 @@ inductive Cmd where
   | seed (q t : Nat)          -- initial loop: queues[q]->add_task(t); number_of_tasks.pre_increment()
   | release                   -- worker loop, after unlock_dependency(): children, then pre_decrement
   | loadNum                   -- number_of_tasks.value()  (the loop condition)
+  | maxC (c : Nat) (v : Int)  -- AtomicValue::max(v) on a free-standing maximum cell
+  | loadMx (c : Nat)          -- AtomicValue::value() of a maximum cell
 deriving DecidableEq, Repr
 
 /-- value returned to the caller (logged, compared with the implementation) -/
@@ -116,6 +119,8 @@ inductive Res where
   | seeded (q t : Nat)
   | released (p : Nat) (n : Int)
   | num (v : Int)
+  | maxed (c : Nat)
+  | mxval (c : Nat) (v : Int)
   | skip
 deriving DecidableEq, Repr
 
@@ -139,7 +144,8 @@ inductive PC where
   | getInc (r : Option Nat)                -- post_increment _current_index
   | getCas (i : Nat) (r : Option Nat)      -- cas_lock _locks[i]
   | getCount (i : Nat) (r : Option Nat)    -- pre_increment _number_taken
-  | getMax (i : Nat) (n : Int) (r : Option Nat)   -- max _max_number_taken
+  | getMax (i : Nat) (n : Int) (r : Option Nat)   -- _max_number_taken.max(n): old = load
+  | getMaxCas (i : Nat) (n old : Int) (r : Option Nat)  -- … compare_exchange(old, max(n, old))
   | getTotal (i : Nat) (r : Option Nat)    -- pre_increment _total_number_taken
   | apFill (tgt n : Nat)                   -- plain: fill the target buffer
   | apPlace (i r : Nat)                    -- plain: remaining packets into the new buffer
@@ -169,6 +175,10 @@ inductive PC where
   | retire (p : Nat)                       -- number_of_tasks.pre_decrement()
   | setUnf (t : Nat) (v : Int)             -- store
   | loadNum                                -- load
+  -- AtomicValue::max on a free-standing cell
+  | cMax (c : Nat) (v : Int)               -- old = load (first time, and the reload after a failed CAS)
+  | cMaxCas (c : Nat) (v old : Int)        -- compare_exchange(old, max(v, old))
+  | cLoadMx (c : Nat)                      -- load
   | popLock (q : Nat) (blocking : Bool)    -- cas_lock queue lock (spin / one attempt)
   | popInit (q : Nat)                      -- plain, under the lock: index = size
   | popScan (q i : Nat)                    -- plain, under the lock: loop test, read _queue[i-1]
@@ -220,6 +230,7 @@ structure Mem where
   ctr : Nat → Int := fun _ => 0            -- free-standing AtomicValue counters
   unf : Nat → Int := fun _ => 0            -- Task::_number_of_unfinished_parents
   num : Int := 0                           -- number_of_tasks of the hydro worker loop
+  mx : Nat → Int := fun _ => 0             -- free-standing AtomicValue cells updated with max()
 
 structure State where
   mem : Mem := {}
@@ -271,6 +282,8 @@ def dispatch (cfg : Cfg) (th : Thread) : Cmd → Thread
     | p :: rest => { th with pc := (match cfg.children p with | [] => .retire p | c :: r => .relDec p c r), fin := rest }
     | [] => ret th .skip
   | .loadNum => { th with pc := .loadNum }
+  | .maxC c v => { th with pc := .cMax c v }
+  | .loadMx c => { th with pc := .cLoadMx c }
 
 /-- `lock_dependency` returned true -/
 def tlSucc (c : Ctx) (t : Nat) (th : Thread) : Thread :=
@@ -313,8 +326,13 @@ def exec (cfg : Cfg) (m : Mem) (th : Thread) : Mem × Thread :=
     -- number_taken = _number_taken.pre_increment();
     ({ m with taken := m.taken + 1 }, { th with pc := .getMax i (m.taken + 1) r })
   | .getMax i n r =>
-    -- _max_number_taken.max(number_taken);
-    ({ m with maxTaken := if n < m.maxTaken then m.maxTaken else n }, { th with pc := .getTotal i r })
+    -- _max_number_taken.max(number_taken):  old_value = _value.load();  (also the reload)
+    (m, { th with pc := .getMaxCas i n m.maxTaken r })
+  | .getMaxCas i n old r =>
+    -- new_value = std::max(value, old_value); while (!compare_exchange_strong(old_value, new_value)) { reload }
+    if m.maxTaken = old then
+      ({ m with maxTaken := if n < old then old else n }, { th with pc := .getTotal i r })
+    else (m, { th with pc := .getMax i n r })
   | .getTotal i r =>
     -- _total_number_taken.pre_increment(); return index;
     ({ m with totalTaken := m.totalTaken + 1 }, getDone th i r)
@@ -417,6 +435,13 @@ def exec (cfg : Cfg) (m : Mem) (th : Thread) : Mem × Thread :=
     ({ m with num := m.num - 1 }, ret th (.released p (m.num - 1)))
   | .setUnf t v => ({ m with unf := upd m.unf t v }, ret th .skip)
   | .loadNum => (m, ret th (.num m.num))
+  -- ---------------------------------------------------------------- AtomicValue::max
+  | .cMax c v => (m, { th with pc := .cMaxCas c v (m.mx c) })
+  | .cMaxCas c v old =>
+    if m.mx c = old then
+      ({ m with mx := upd m.mx c (if v < old then old else v) }, ret th (.maxed c))
+    else (m, { th with pc := .cMax c v })
+  | .cLoadMx c => (m, ret th (.mxval c (m.mx c)))
   | .popLock q blocking =>
     if m.locks (.queue q) then
       (if blocking then (m, th) else (m, ret th (.popped q none)))
